@@ -3,6 +3,7 @@ package props
 import (
 	"encoding/json"
 	"fmt"
+	"github.com/meshplus/bitxhub-kit/types"
 	"sort"
 	"strings"
 	"testing"
@@ -240,6 +241,30 @@ func c16Property(t *rapid.T) {
 		return out
 	}
 	newSvcs := 0
+	// a second rule for chainA (a deployed WASM rule registered as bindable), so that master-rule updates - which pause
+	// and un-pause the appchain around their proposal - take part in the lifecycle
+	ruleCand := ""
+	master := map[string]string{}
+	happy := "0x00000000000000000000000000000000000000a2"
+	if rapid.Bool().Draw(t, "withRule") {
+		ka := sim.ChainAdmins["chainA"]
+		dr := w.Block(sim.DeployTx(ka, w.Nonces.Next(ka), w.TS+1, sim.RuleWasm()))[0]
+		if dr.IsSuccess() {
+			ruleCand = types.NewAddress(dr.Ret).String()
+			w.Block(w.BVM(ka, constant.RuleManagerContractAddr, "RegisterRule", pb.String("chainA"), pb.String(ruleCand), pb.String("http://rule")))
+			master["chainA"] = happy
+			r.ops = append(r.ops, "chainA has a second rule "+ruleCand)
+		}
+	}
+	// appchains frozen by an approved freeze proposal stay unusable until an activation is approved
+	govFrozen := map[string]bool{}
+	checkGovFrozen := func(what string) {
+		for c, fz := range govFrozen {
+			if fz && r.status[c] == "available" {
+				r.f.fail("appchain %s was frozen by an approved proposal and is available again after block %d (%s) without an approved activation", c, w.N.Height(), what)
+			}
+		}
+	}
 	t.Repeat(map[string]func(*rapid.T){
 		"lifecycle": func(t *rapid.T) {
 			obj := r.objs[rapid.IntRange(0, len(r.objs)-1).Draw(t, "obj")]
@@ -251,11 +276,20 @@ func c16Property(t *rapid.T) {
 				r.objs = append(r.objs, obj)
 				r.status[obj] = ""
 			}
+			if ruleCand != "" && rapid.IntRange(0, 4).Draw(t, "ruleUpdate") == 0 {
+				op, obj = "rule-update", "chainA"
+			}
 			chain := chainOf(obj)
 			gov, own := w.N.Admins[rapid.IntRange(0, 3).Draw(t, "admin")], sim.ChainAdmins[chain]
 			var tx *pb.BxhTransaction
 			isSvc := strings.Contains(obj, ":")
 			switch {
+			case op == "rule-update":
+				cand := ruleCand
+				if master["chainA"] == ruleCand {
+					cand = happy
+				}
+				tx = w.BVM(own, constant.RuleManagerContractAddr, "UpdateMasterRule", pb.String("chainA"), pb.String(cand), pb.String("r"))
 			case op == "register":
 				p := strings.Split(obj, ":")
 				tx = w.RegisterServiceTx(own, p[0], p[1], true, "")
@@ -298,6 +332,7 @@ func c16Property(t *rapid.T) {
 				}
 			}
 			r.afterBlock(before, touched, what)
+			checkGovFrozen(what)
 		},
 		"conclude": func(t *rapid.T) {
 			if len(r.open) == 0 {
@@ -327,6 +362,24 @@ func c16Property(t *rapid.T) {
 			what := fmt.Sprintf("votes approve=%v on %s (%s %s) -> %v %v %v", approve, p.id, p.op, p.obj, rs[0].IsSuccess(), rs[1].IsSuccess(), rs[2].IsSuccess())
 			r.ops = append(r.ops, fmt.Sprintf("block %d: %s", w.N.Height(), what))
 			r.afterBlock(before, touched, what)
+			if !strings.Contains(p.obj, ":") {
+				switch {
+				case p.op == "freeze" && approve && before[p.obj] == "freezing" && r.status[p.obj] == "frozen":
+					govFrozen[p.obj] = true
+				case p.op == "activate" && approve && r.status[p.obj] == "available":
+					govFrozen[p.obj] = false
+				case r.status[p.obj] == "forbidden":
+					govFrozen[p.obj] = false
+				case p.op == "rule-update" && approve && r.status[p.obj] != before[p.obj] || p.op == "rule-update" && approve:
+					// an approved update switches the master rule
+					if master["chainA"] == ruleCand {
+						master["chainA"] = happy
+					} else {
+						master["chainA"] = ruleCand
+					}
+				}
+			}
+			checkGovFrozen(what)
 		},
 		"ibtp": func(t *rapid.T) {
 			n := rapid.IntRange(1, 3).Draw(t, "n")
